@@ -56,8 +56,8 @@ impl World {
             World::W2(e) => { e.place_order(a, side, vol, HARNESS_TRADER, Some(price)).expect("harness quote on grid"); }
         }
     }
-    fn cancel(&mut self, a: usize, id: usize) { match self { World::W1(e) => e.cancel_order(id), World::W2(e) => e.cancel_order((a, id)) } }
-    fn step(&mut self, rng: &mut Scripted<R>) { match self { World::W1(e) => e.step(rng), World::W2(e) => e.step(rng) } }
+    fn cancel(&mut self, a: usize, id: usize) { match self { World::W1(e) => { e.cancel_order(id); } World::W2(e) => { e.cancel_order((a, id)); } } }
+    fn step(&mut self, rng: &mut Scripted<R>) { match self { World::W1(e) => { e.step(rng); } World::W2(e) => { e.step(rng); } } }
     fn n_trades(&self, a: usize) -> usize { match self { World::W1(e) => e.get_trades().len(), World::W2(e) => e.get_trades(a).len() } }
 }
 
